@@ -509,3 +509,89 @@ def migration_family(tier):
         os.remove(f)
     cache_put(key, res)
     return res
+
+
+# ---------------------------------------------------------------------------------------------
+# backend / session family (C08)
+# ---------------------------------------------------------------------------------------------
+def backend_family(tier):
+    sd = seed()
+    key = "backend_%s_%s_%d" % (tree_hash(), tier, sd)
+    cached = cache_get(key)
+    if cached:
+        log("backend family: cache hit")
+        return cached
+    t0 = time.time()
+    build_harness()
+    cfgs = ["quick", "quick2", "live"] if tier == "quick" else ["quick", "quick2", "th1", "th2", "th_live"]
+    mcs = []
+    if not os.environ.get("VERIF_SKIP_MC"):
+        for c in cfgs:
+            mcs.append(tlc_model_check("backend_" + c, "Backend_MC.tla", "Backend_MC_%s.cfg" % c, workers=6,
+                                       timeout=900 if tier == "quick" else 4000, xmx="8g", extra=""))
+        # the seeded design errors must be rejected by the invariants (non-vacuity of the design model)
+        for v in ("resend_unsent_only", "match_newest", "drain_forgets"):
+            r = tlc_model_check("backend_bad_" + v, "Backend_MC.tla", "Backend_MC_bad_%s.cfg" % v, workers=4, timeout=600, xmx="4g", extra="")
+            if r.get("ok") or not r.get("violated"):
+                raise ToolError("Backend design model accepts the seeded design error %s" % v)
+    mc = None
+    if mcs:
+        mc = {"name": "Backend_MC[" + ",".join(cfgs) + "] + 3 seeded design errors rejected", "ok": all(m["ok"] for m in mcs),
+              "wall_s": round(sum(m["wall_s"] for m in mcs), 1), "states": sum(m.get("states", 0) for m in mcs),
+              "transitions": sum(m.get("transitions", 0) for m in mcs),
+              "violated": next((m.get("violated") for m in mcs if m.get("violated")), None),
+              "out_tail": "\n".join(m.get("out_tail", "") for m in mcs if not m["ok"])}
+    d = fresh_dir(os.path.join(WORK, "backend_" + tier))
+    parts = 8 if tier == "quick" else 14
+    count = 80 if tier == "quick" else 1500
+    cmds, files = [], []
+    for p in range(parts):
+        f = os.path.join(d, "tcp_%02d.ndjson" % p)
+        cmds.append("%s tcp-runs --out %s --seed %d --first %d --count %d --par 12" % (UVERIF, f, sd, p * count, count))
+        files.append(f)
+    rc, out = _run_cmds(cmds, timeout=3000 if tier == "quick" else 20000)
+    if rc != 0:
+        raise ToolError("tcp rig failed: " + out[-2000:])
+    verdicts = validate_shards("Backend_Trace.tla", "Backend_Trace.cfg", files, jobs=14, timeout=3000)
+    viols, divs, cases = [], [], 0
+    kinds, samples, nontrivial = {}, [], 0
+    for v in verdicts:
+        if not v["consumed"]:
+            raise ToolError("Backend_Trace did not consume %s\n%s" % (v["shard"], v.get("tlc_tail", "")))
+        lines = [json.loads(x) for x in open(v["shard"]).read().splitlines()]
+        # scenario index
+        scen_of, cur = [], None
+        for e in lines:
+            if e["ev"] == "cfg":
+                cur = e
+            scen_of.append(cur)
+        for x in v["viol"]:
+            e = lines[x["line"] - 1]
+            sc = scen_of[x["line"] - 1]
+            req = next((r for r in lines if r["ev"] == "req" and scen_of[lines.index(r)] is sc and r["conn"] == e.get("conn") and r["idx"] == e.get("idx")), None)
+            viols.append({"mon": x["mon"], "cls": (req or {}).get("kind", e["ev"]),
+                          "case": {"kind": "scenario", "scenario": sc["scenario"], "seed": sd, "cfg": sc, "event": e, "request": req}})
+        for x in v["div"]:
+            divs.append({"mon": x["mon"], "line": lines[x["line"] - 1]})
+        faults_hit, errs, sc_cur = set(), 0, None
+        for e in lines:
+            k = e["ev"]
+            if k == "cfg":
+                cases += 1
+                sc_cur = e["scenario"]
+                if len(samples) < 2 and any(e["faults"]):
+                    samples.append(e)
+            elif k == "bk_conn" and e["mode"] != "good":
+                faults_hit.add(sc_cur)
+                kinds["fault:" + e["mode"]] = kinds.get("fault:" + e["mode"], 0) + 1
+            elif k == "reply":
+                kinds["reply:" + e["kind"]] = kinds.get("reply:" + e["kind"], 0) + 1
+            elif k == "bk_down":
+                kinds["fault:listener_down"] = kinds.get("fault:listener_down", 0) + 1
+        nontrivial += len(faults_hit)
+    res = {"tier": tier, "seed": sd, "wall_s": time.time() - t0, "cases": cases, "kinds": kinds, "nontrivial": nontrivial,
+           "violations": viols[:200], "violation_count": len(viols), "divergences": divs[:50], "samples": samples, "mc": mc}
+    for f in files:
+        os.remove(f)
+    cache_put(key, res)
+    return res
